@@ -29,4 +29,5 @@ def main(tier):
     chk.run("R-COPY", C.copy_rule, cx.cpp, cx.templates, floor=6)
     chk.run("R-STORAGEIFACE", C.storageiface, cx.cpp, cx.templates, floor=12)
     chk.run("R-PARAMCOPY", B.paramcopy, cx.repo, cx.templates, floor=3)
+    chk.run("R-BITCOPY", WN.bitcopy, cx.cpp, floor=4)
     return chk.finish()
